@@ -19,6 +19,8 @@ type BCfg struct {
 	Stream               bool
 	// CB is invoked inside every lifecycle callback (a yield point or a slow callback).
 	CB func(kind string)
+	// SlowDial: the relay address generator's AllocateConn (the outgoing connection of a Connect) takes this long.
+	SlowDial time.Duration
 }
 
 // BW is the closed system of an Engine-B scenario.
@@ -32,6 +34,7 @@ type BW struct {
 	Life    []string
 	Notes   []string
 	Gen     int
+	cfg     BCfg
 }
 
 type bgen struct{ w *BW }
@@ -61,6 +64,9 @@ func (g bgen) AllocateListener(c turn.AllocateListenerConfig) (net.Listener, net
 func (g bgen) AllocateConn(c turn.AllocateConnConfig) (net.Conn, error) {
 	la, _ := c.LocalAddr.(*net.TCPAddr)
 	ra, _ := c.RemoteAddr.(*net.TCPAddr)
+	if g.w.cfg.SlowDial > 0 {
+		vsched.IdleSleep(g.w.cfg.SlowDial) // a peer that answers the SYN late
+	}
 
 	return g.w.Net.DialTCPAddr(la, ra)
 }
@@ -83,7 +89,7 @@ func (w *BW) Note(f string, a ...any) {
 
 // NewBW builds the network and starts the real (instrumented) server. Root goroutine only.
 func NewBW(cfg BCfg) *BW {
-	w := &BW{Net: simnet.New(), SrvAddr: vtx.SrvV4}
+	w := &BW{Net: simnet.New(), SrvAddr: vtx.SrvV4, cfg: cfg}
 	w.Net.Sched = vsched.SimHook{}
 	sc := turn.ServerConfig{
 		Realm: vtx.Realm, LoggerFactory: vtx.QuietFactory{},
